@@ -15,7 +15,9 @@ import (
 	"fmt"
 	"hash/fnv"
 	"iter"
+	"runtime"
 	"strings"
+	"sync"
 
 	"github.com/jub0bs/cors"
 	"github.com/jub0bs/cors/cfgerrors"
@@ -28,7 +30,11 @@ const c19ConcRule = "one case = 1..3 seeded join trees (bushy or a spine of up t
 
 // ---------------------------------------------------------------- scheduler (a plan-agnostic cut of c07.go's)
 
+func (t *mtask) mine() bool { return mineAt(&t.lastSP, t.goid) }
+
 type mtask struct {
+	lastSP    uintptr
+	goid      int64
 	id        int
 	wake      chan struct{}
 	done      bool
@@ -56,6 +62,7 @@ type msched struct {
 	measure  bool
 	counts   [][]int
 	labels   [][][]string
+	onceBusy map[*sync.Once]bool
 }
 
 func (s *msched) mix(task int, label string) {
@@ -66,6 +73,9 @@ func (s *msched) mix(task int, label string) {
 
 func (s *msched) yield(label, class string) {
 	t := s.tasks[s.cur]
+	if simrt.TreeStartsGoroutines && !t.mine() {
+		return // a goroutine the library started (or the coroutine of iter.Pull): it runs free
+	}
 	s.yields++
 	if s.yields > yieldCap {
 		fatal2("watchdog: more than %d schedule points in one run (livelock?)", yieldCap)
@@ -109,6 +119,12 @@ func (s *msched) handoff(ev event) {
 
 func (s *msched) acquire(try func() bool, label string) {
 	t := s.tasks[s.cur]
+	if simrt.TreeStartsGoroutines && !t.mine() {
+		for !try() {
+			runtime.Gosched()
+		}
+		return
+	}
 	for !try() {
 		if s.measure {
 			fatal2("a lock is held across the sequential dry run at %s", label)
@@ -121,9 +137,36 @@ func (s *msched) acquire(try func() bool, label string) {
 }
 
 func (s *msched) released() {
+	if simrt.TreeStartsGoroutines && !s.tasks[s.cur].mine() {
+		return
+	}
 	for _, t := range s.tasks {
 		t.blocked = false
 	}
+}
+
+func (s *msched) onceDo(o *sync.Once, f func()) {
+	t := s.tasks[s.cur]
+	if simrt.TreeStartsGoroutines && !t.mine() {
+		o.Do(f)
+		return
+	}
+	if s.onceBusy == nil {
+		s.onceBusy = map[*sync.Once]bool{}
+	}
+	for s.onceBusy[o] {
+		t.blocked = true
+		s.mix(t.id, "park:once")
+		s.handoff(event{kind: evBlocked})
+	}
+	s.onceBusy[o] = true
+	defer func() {
+		delete(s.onceBusy, o)
+		for _, u := range s.tasks {
+			u.blocked = false
+		}
+	}()
+	o.Do(f)
 }
 
 func (s *msched) pickDefault() int {
@@ -195,6 +238,9 @@ func (s *msched) control() {
 }
 
 func (s *msched) runTask(t *mtask) {
+	if simrt.TreeStartsGoroutines {
+		t.goid = curGoid()
+	}
 	<-t.wake
 	for i := 0; i < s.nOps[t.id]; i++ {
 		t.opIdx, t.yieldInOp = i, 0
@@ -212,8 +258,8 @@ func (s *msched) run() {
 	if len(s.tasks) == 0 {
 		return
 	}
-	simrt.YieldHook, simrt.AcquireHook, simrt.ReleasedHook = s.yield, s.acquire, s.released
-	defer func() { simrt.YieldHook, simrt.AcquireHook, simrt.ReleasedHook = nil, nil, nil }()
+	simrt.YieldHook, simrt.AcquireHook, simrt.ReleasedHook, simrt.OnceHook = s.yield, s.acquire, s.released, s.onceDo
+	defer func() { simrt.YieldHook, simrt.AcquireHook, simrt.ReleasedHook, simrt.OnceHook = nil, nil, nil, nil }()
 	for _, t := range s.tasks {
 		go s.runTask(t)
 	}
